@@ -251,7 +251,8 @@ func (t *basicTaskBase) ensureBasicTaskKilled() (err error) {
 	if t.Tci.ControlMode == controlmode.HOOK {
 		return nil
 	}
-	if t.taskCmd.ProcessState.Exited() {
+	if t.taskCmd.ProcessState != nil {
+		// Wait has returned, the process has already been reaped
 		return nil
 	}
 
